@@ -542,7 +542,13 @@ impl Family for TopicFamily {
           0 if self.asyncness == 2 => ops.push(TSOp::Convert),
           1 if self.lifecycle => ops.push(TSOp::CloneSwap),
           2 if self.lifecycle => ops.push(TSOp::CloneDrop),
-          3 if self.lifecycle && rng.chance(1, 4) => ops.push(TSOp::CloseOwn),
+          3 if self.lifecycle && rng.chance(1, 4) => {
+            ops.push(TSOp::CloseOwn);
+            // keep going on a clone of the closed handle: it must not bring the channel back
+            if rng.chance(1, 2) {
+              ops.push(TSOp::CloneSwap);
+            }
+          }
           4 => ops.push(TSOp::Yield),
           _ => {}
         }
@@ -734,16 +740,8 @@ impl Family for TopicFamily {
   }
 }
 
-/// No clone operations on a sender handle after its own close() (see gen.rs::sanitize).
-fn sanitize_sender(s: &mut TSender) {
-  if let Some(pos) = s.ops.iter().position(|o| matches!(o, TSOp::CloseOwn)) {
-    let mut i = 0;
-    s.ops.retain(|o| {
-      i += 1;
-      i - 1 <= pos || !matches!(o, TSOp::CloneSwap | TSOp::CloneDrop)
-    });
-  }
-}
+/// (Clone operations on a sender handle after its own close() are generated: see `born_tx`.)
+fn sanitize_sender(_s: &mut TSender) {}
 
 #[derive(Clone, Copy)]
 struct Interval {
@@ -807,6 +805,18 @@ pub fn evaluate(sc: &TopicSc, run: &TopicRun) -> Vec<Violation> {
     })
     .chain(evs.iter().filter_map(|e| if let TK::TxClone { .. } = &e.k { Some(e.handle) } else { None }))
     .collect();
+
+  // sender clones made from a handle after its own close(): neither counted as alive nor held
+  // to the closed-handle rules (see chan/oracle.rs::born_of_closed)
+  let mut born_tx: BTreeSet<u16> = BTreeSet::new();
+  for e in evs {
+    if let TK::TxClone { to } = &e.k {
+      if born_tx.contains(&e.handle) || evs.iter().any(|x| x.handle == e.handle && x.ret <= e.inv && matches!(x.k, TK::TxClose { ok: true })) {
+        born_tx.insert(*to);
+      }
+    }
+  }
+  let tx_handles: BTreeSet<u16> = tx_handles.difference(&born_tx).copied().collect();
 
   // intervals[(handle, topic)] = list of subscription intervals
   let mut intervals: BTreeMap<(u16, u8), Vec<Interval>> = BTreeMap::new();
@@ -987,6 +997,17 @@ pub fn evaluate(sc: &TopicSc, run: &TopicRun) -> Vec<Violation> {
     }
   }
 
+  // nobody publishes successfully once a receiver was told that every sender is gone for good
+  if let Some((h, t)) = saw_disc.iter().map(|(h, t)| (*h, *t)).min_by_key(|x| x.1) {
+    for e in evs {
+      if let TK::Publish { ok: true, id, .. } = &e.k {
+        if e.inv > t {
+          vs.push(viol_named(fl, "C04", "send_accepted_after_disconnected_observed", &[("via_clone_of_closed_handle", born_tx.contains(&e.handle).to_string())], format!("receiver handle {h} was told Disconnected at {t}, yet sender handle {} published value {id} Ok at {}", e.handle, e.inv)));
+        }
+      }
+    }
+  }
+
   // stamp by which every sender handle had been closed or dropped (None if one never was)
   let senders_gone_at: Option<u64> = tx_handles
     .iter()
@@ -998,6 +1019,7 @@ pub fn evaluate(sc: &TopicSc, run: &TopicRun) -> Vec<Violation> {
   let mut closed_ok: BTreeSet<u16> = BTreeSet::new();
   for e in evs {
     match &e.k {
+      TK::TxClose { .. } if born_tx.contains(&e.handle) => {}
       TK::TxClose { ok } | TK::RxClose { ok } => {
         if *ok && !closed_ok.insert(e.handle) {
           vs.push(viol_named(fl, "C04", "close_not_idempotent", &[], format!("second close() of handle {} reported Ok", e.handle)));
@@ -1022,7 +1044,7 @@ pub fn evaluate(sc: &TopicSc, run: &TopicRun) -> Vec<Violation> {
   for e in evs {
     if let TK::Publish { ok: false, id, .. } = &e.k {
       let own_closed = evs.iter().any(|x| x.handle == e.handle && x.ret <= e.inv && matches!(x.k, TK::TxClose { ok: true }));
-      if own_closed {
+      if own_closed || born_tx.contains(&e.handle) {
         continue;
       }
       let alive: Vec<u16> = rx_handles
